@@ -8,7 +8,7 @@ HERE = os.path.dirname(os.path.abspath(__file__))
 WRDOC = json.load(open(os.path.join(os.path.dirname(HERE), 'working_ranges.json')))
 WR = WRDOC['optimizers']
 OPTIMIZERS = ['ABC', 'AIWPSO', 'BA', 'BHA', 'CS', 'FA', 'FPA', 'GP', 'GSA', 'HC', 'HS', 'IHS', 'PSO', 'RPSO', 'SA', 'SCA', 'WCA']
-OBJECTIVES = ['sphere', 'shifted', 'linear', 'constant', 'zero', 'negative', 'signchg', 'plateau']
+OBJECTIVES = ['sphere', 'shifted', 'linear', 'constant', 'zero', 'negative', 'signchg', 'plateau', 'tiny_negative', 'tiny_positive']
 BOXES = ['unit', 'sym10', 'asym', 'narrow', 'wide', 'degenerate']
 SCRIPTS = ['seeded', 'seeded', 'low', 'high', 'alt', 'gauss', 'mixed']
 ALL_FUNCS = ['SUM', 'SUB', 'MUL', 'DIV', 'EXP', 'SQRT', 'LOG', 'ABS', 'SIN', 'COS']
@@ -81,7 +81,7 @@ def pick(rnd, covered, cell, factors, tries=10):
 
 def funcs(name):
     return {'all': ALL_FUNCS, 'unary': ['EXP', 'SQRT', 'LOG', 'ABS', 'SIN', 'COS'], 'binary': ['SUM', 'SUB', 'MUL', 'DIV'],
-            'arith': ['SUM', 'MUL', 'ABS', 'SIN']}[name]
+            'arith': ['SUM', 'MUL', 'ABS', 'SIN'], 'abs': ['ABS', 'SUB']}[name]
 
 
 def make(opt, space, c, idx, timeout):
@@ -222,6 +222,28 @@ def hunts(quick, focus, timeout):
                  'hp': ['default', 'lo'][(i // 16) % 2], 'store_best_only': False, 'hook': 'observe'}
             cfg = make('ABC', 'search', c, 8000 + i, min(timeout, 2.0))
             cfg['repro'] = False
+            out.append(cfg)
+    if 'ABC' in opts:
+        # objectives whose values all lie in [-0.05, 0) or (0, 0.05]: the additive 0.1 of the onlooker probability matters
+        n_tiny = (8 if quick else 48) * (4 if focus and len(opts) == 1 else 1)
+        for i in range(n_tiny):
+            c = {'objective': ['tiny_negative', 'tiny_positive'][i % 2], 'ret': ['pyfloat', 'npscalar'][(i // 2) % 2],
+                 'box': ['sym10', 'unit', 'asym', 'wide'][(i // 4) % 4], 'agents': [2, 5, 'min', 20][(i // 2) % 4],
+                 'n_variables': [1, 2, 5][i % 3], 'n_dimensions': 1, 'n_iterations': [1, 3][(i // 4) % 2],
+                 'draws': ['seeded', 'low', 'seeded', 'gauss'][i % 4], 'hp': ['default', 'lo'][(i // 8) % 2], 'store_best_only': False, 'hook': 'observe'}
+            cfg = make('ABC', ['search', 'hyper'][(i // 16) % 2], c, 8200 + i, min(timeout, 2.0))
+            cfg['repro'] = False
+            out.append(cfg)
+    if 'GP' in opts:
+        # ABS (in-place candidates) in the function set, boxes with negative values, several trees, several iterations
+        n_gp = (120 if len(opts) == 1 else 6) if quick else (600 if len(opts) == 1 else 60)
+        for i in range(n_gp):
+            c = {'objective': OBJECTIVES[i % len(OBJECTIVES)], 'ret': ['pyfloat', 'npscalar'][i % 2], 'box': ['sym10', 'asym'][i % 2],
+                 'agents': [5, 20, 7][i % 3], 'n_variables': [1, 2, 5][(i // 2) % 3], 'n_dimensions': 1, 'n_iterations': [3, 10][(i // 3) % 2],
+                 'draws': 'seeded', 'hp': ['default', 'hi', 'rnd'][i % 3], 'store_best_only': False, 'hook': 'observe',
+                 'functions': ['all', 'arith', 'abs'][i % 3], 'depth': [(1, 3), (2, 5)][(i // 2) % 2], 'n_terminals': [1, 3][(i // 4) % 2]}
+            cfg = make('GP', 'tree', c, 8700 + i, timeout)
+            cfg['repro'] = i % 4 == 0
             out.append(cfg)
     if 'RPSO' in opts:
         for i in range(6 if quick else 40):
